@@ -173,7 +173,8 @@ def json_ok(d):
             return any(has_opaque_dict(v) for v in x)
         return False
     try:
-        json.dumps(d)
+        # (numpy scalars given by a caller are numbers for this purpose; the model has no such distinction)
+        json.dumps(d, default=lambda o: o.item() if isinstance(o, np.generic) else (_ for _ in ()).throw(TypeError("not serialisable")))
     except TypeError:
         return False
     return not has_opaque_dict(d)
@@ -400,7 +401,10 @@ class Impl:
         kw = {}
         if op.get("name") is not None:
             kw["name"] = self.v(op["name"])
-        b.insertSegment(op["pos"], fn_to_py(op["fn"]), tuple(self.v(a) for a in op["args"]), dur=self.v(op.get("dur")), **kw)
+        args = tuple(self.v(a) for a in op["args"])
+        if op.get("_bare") and len(args) == 1:
+            args = args[0]          # insertSegment(pos, func, 0.5, ...): a single argument need not be wrapped in a tuple
+        b.insertSegment(op["pos"], fn_to_py(op["fn"]), args, dur=self.v(op.get("dur")), **kw)
 
     def op_bp_remove(self, op):
         self.g(op["id"]).removeSegment(op["name"])
@@ -546,7 +550,14 @@ class Impl:
         m = {"twait": s.setSequencingTriggerWait, "nrep": s.setSequencingNumberOfRepetitions,
              "jump_input": s.setSequencingEventInput, "jump_target": s.setSequencingEventJumpTarget,
              "goto": s.setSequencingGoto}
-        m[op["field"]](op["pos"], op["v"])
+        v = op["v"]
+        if op.get("_as") == "bool":
+            v = bool(v)             # the same number, as a caller's own code may produce it
+        elif op.get("_as") == "float":
+            v = float(v)
+        elif op.get("_as") == "npint":
+            v = np.int64(v)
+        m[op["field"]](op["pos"], v)
 
     def op_sq_setSeqSettings(self, op):
         self.g(op["id"]).setSequenceSettings(op["pos"], op["wait"], op["nreps"], op["jump"], op["goto"])
@@ -555,6 +566,12 @@ class Impl:
         self.g(op["id"]).name = op["name"]
 
     def op_sq_check(self, op):
+        if "verbose" in op:
+            # checkConsistency(verbose=...) -- positional or by keyword; what it prints is not observed
+            import contextlib, io
+            with contextlib.redirect_stdout(io.StringIO()):
+                s = self.g(op["id"])
+                return bool(s.checkConsistency(op["verbose"]) if op.get("positional") else s.checkConsistency(verbose=op["verbose"]))
         return bool(self.g(op["id"]).checkConsistency())
 
     def op_sq_channels(self, op):
